@@ -163,12 +163,17 @@ func (p *Parser) ParseFile(filename string, varPool *VarPool) (*MetaData, []*Bui
 				continue
 			}
 			baseName := pkgObj.Name
+			// Keep the name the user imports the package under: expressions copied from the
+			// declaration then need no renaming (which a same-named parameter could capture).
+			if imp.Name != nil && imp.Name.Name != "_" && imp.Name.Name != "." {
+				baseName = imp.Name.Name
+			}
 
 			name := varPool.GetName(baseName)
 
 			metaData.Imports[path] = &Import{
 				Name:          name,
-				IsDefaultName: name == baseName,
+				IsDefaultName: name == pkgObj.Name,
 				IsUsed:        false, // Will be set to true only when actually used in code generation
 			}
 		}
